@@ -362,7 +362,13 @@ def run(spec, ctx):
             from rt.jp_oracle import check_after_incomplete_passes
 
             q0 = r.choice(asts)
-            check_after_incomplete_passes(ctx, q0, Renderer(r, plain=True).top(q0), doc, fctx, "in-place", pool=list(gen.MEM_LEAVES) + [[], {}, ["a"], {"a": 2}])  # (no boolean/number look-alikes: extension operators may compare them)
+            t0 = Renderer(r, plain=True).top(q0)
+            if " in " in t0 or " contains " in t0:
+                # (membership between booleans and numbers - `1 in [true]` - is not settled by the documentation; the documents
+                # here may hold both, so the model cannot judge these operands: left to C13, whose documents avoid the mix)
+                ctx.count("in_place_helper_skipped_membership_operands")
+            else:
+                check_after_incomplete_passes(ctx, q0, t0, doc, fctx, "in-place", pool=list(gen.MEM_LEAVES) + [[], {}, ["a"], {"a": 2}])  # (no boolean/number look-alikes: extension operators may compare them)
         if not failed and not use_ctx and r.random() < 0.5:
             # lazy entry points of ONE compiled object left half-consumed while another evaluation runs:
             # finditer/query must still list what findall lists
